@@ -95,6 +95,11 @@ fn prop(t: &mut Tape, st: &mut Stats, adjacent: bool, f11_probe: bool) -> Result
     cfg.f11_safe = adjacent && !f11_probe;
     cfg.decor = t.weighted(&[1, 4, 5]) as u8;
     cfg.budget = 10 + t.below(50);
+    if t.chance(1, 12) {
+        // wide documents (dozens of tables)
+        cfg.many_sections = true;
+        cfg.budget = 250 + t.below(250);
+    }
     let r = gen_doc(t, &cfg);
     st.eval();
     for c in &r.classes {
